@@ -776,9 +776,14 @@ Inductive op :=
 Definition run_op (c : cfg) (o : op) (s : st) : res (st * N) :=
   match o with
   | OBlock =>
+    (* packer.Schedule / consensus validate: on a SyncPOS error the state is reverted to the checkpoint taken before it and the
+       block goes on (the status keeps Active as read before the failing step): the epoch's housekeeping is skipped, the
+       block number still advances.  Answer value: active*2 + updates, +4 when SyncPOS returned an error. *)
     let b := blk s + 1 in
-    '(s1, active, updates) <- sync_pos c b (w_blk b s);;
-    Ok (s1, (if active then 2 else 0) + (if updates then 1 else 0))
+    match sync_pos c b (w_blk b s) with
+    | Ok (s1, active, updates) => Ok (s1, (if active then 2 else 0) + (if updates then 1 else 0))
+    | _ => Ok (w_blk b s, 4 + (if (c_hayabusa c + c_tp c <=? b) && (0 <? l_size (act s)) then 2 else 0))
+    end
   | OAddValidation a e p vet =>
     _ <- guard (check_stake (vet * e18));; add_validation c a e p vet (pay_in (vet * e18) s)
   | OIncrease a e vet =>
